@@ -37,8 +37,11 @@ MANIFEST = dict(
                 "server's hostwatch_ready reassembly, the client's onhostlist/sethostip and the helper's HOST loop "
                 "and hosts-line format: for every scanner input everything emitted is a representable record "
                 "(C19_scanner_emits_valid), for every chunking of the scanner's stream the payloads carry exactly "
-                "its complete lines (C19_reassembly) and every record reaches sethostip exactly once "
-                "(C19_exactly_once), for every payload a server could send the client raises nothing and writes "
+                "its complete lines (C19_reassembly, C19_reassembly_no_stop) and, end to end (C19_chain: for every sequence "
+                "of found_host calls with arbitrary names and address texts and every cutting of the scanner's output "
+                "into reads of 1..4096 bytes, HOST_LIST frames crossing the tunnel intact by C07), the updates the helper "
+                "finally acts on are exactly the records the scanner emitted, each once, in order, verbatim, all "
+                "representable; for every byte string as payload (C19_never_fatal, total) and for every payload a server could send the client raises nothing and writes "
                 "only well-formed HOST lines (C19_client_never_fatal) whose hosts-file lines have the shape "
                 "address, name, padding, marker (C19_line_shape). The model is tied to the code on every run by a "
                 "stage-by-stage differential run of the real functions plus an end-to-end oracle on a scratch file."),
